@@ -21,7 +21,7 @@ case "$id" in
 esac
 export GOFLAGS= GOPROXY=off GOSUMDB=off GOTOOLCHAIN=local GONOSUMDB=* GONOSUMCHECK=1 GOWORK=off
 export GODEBUG=goindex=0
-[ -x "$VERIF_DIR/tools/bin/mkoverlay" ] || (cd "$VERIF_DIR/tools" && go build -o bin/mkoverlay ./mkoverlay) || exit 2
+{ [ -x "$VERIF_DIR/tools/bin/mkoverlay" ] && [ "$VERIF_DIR/tools/bin/mkoverlay" -nt "$VERIF_DIR/tools/mkoverlay/main.go" ]; } || (cd "$VERIF_DIR/tools" && go build -o bin/mkoverlay ./mkoverlay) || exit 2
 scratch="$VERIF_DIR/.build/$group.$$"
 mkdir -p "$scratch"
 trap 'rm -rf "$scratch"' EXIT
